@@ -111,6 +111,9 @@ func singlePerturbations(m *ophosttypes.MsgFinalizeTokenWithdrawal, cx c03Ctx) [
 		perturbation{"denom.uppercase", func(m *ophosttypes.MsgFinalizeTokenWithdrawal) { m.Amount.Denom = "UINIT" }},
 		perturbation{"from=to.concat", func(m *ophosttypes.MsgFinalizeTokenWithdrawal) { m.From = m.From + m.To }},
 		perturbation{"denom.changed", func(m *ophosttypes.MsgFinalizeTokenWithdrawal) { m.Amount.Denom = "uusdc" }},
+		perturbation{"denom.its_l2_name", func(m *ophosttypes.MsgFinalizeTokenWithdrawal) {
+			m.Amount.Denom = ref.L2Denom(m.BridgeId, m.Amount.Denom) // registered as a token pair of this bridge by the deposits
+		}},
 		perturbation{"proof.empty", func(m *ophosttypes.MsgFinalizeTokenWithdrawal) { m.WithdrawalProofs = nil }},
 		perturbation{"proof.extended.random", func(m *ophosttypes.MsgFinalizeTokenWithdrawal) {
 			m.WithdrawalProofs = append(m.WithdrawalProofs, bytes.Repeat([]byte{0x5a}, 32))
@@ -315,6 +318,29 @@ func checkC03(run *mon.Run, rng *mon.Rand, thorough bool) {
 						}
 						if r.Class == sim.PANIC {
 							kinds["panic:"+p.kind]++
+						}
+					}
+				}
+				// the latest final output (B): its valid claim is the control; the same claim naming index 0 ("unset"), the
+				// previous index or the next one must fail
+				if pos < len(outB.Ws) {
+					ctl := outB.Claim(pos, user.String())
+					rb := env.L1.Branch().Deliver(cloneClaim(ctl))
+					run.Evaluations++
+					if run.Check("C03.control_accepted", rb.Class == sim.OK, "c03.control_rejected_latest_output", []string{fmt.Sprintf("tree size %d shape %d: claim %d of the latest final output: %s", n, shape, pos, rb.ErrString())}, "valid claim against the latest final output rejected: %s", rb.ErrString()) {
+						for _, idx := range []uint64{0, outB.Index - 1, outB.Index + 1, outB.Index + 2} {
+							m := cloneClaim(ctl)
+							m.OutputIndex = idx
+							b5 := env.L1.Branch()
+							e5, r5, p5 := refVerify(b5, m)
+							res5 := b5.Deliver(m)
+							run.Evaluations++
+							if res5.Class == sim.OK {
+								run.Check("C03.accepted_claim_is_committed", e5 && r5 && p5, "c03.forged_claim_accepted", []string{fmt.Sprintf("tree size %d shape %d: claim %d of the latest final output %d submitted with output index %d -> ok (ref: exists=%v root=%v proof=%v)", n, shape, pos, outB.Index, idx, e5, r5, p5)}, "a claim of the latest final output accepted under output index %d, which does not store its root", idx)
+							} else {
+								run.Hit("C03.perturbed_claim_rejected")
+								run.Distinct(fmt.Sprintf("C03/%d/%d/%d/latest.index=%d", n, shape, pos, idx))
+							}
 						}
 					}
 				}
